@@ -2,14 +2,20 @@
 (* Behaviour generation for C16: JUnit's actions with a history variable of the calls the registry makes
    (op + arguments).  A behaviour is a complete run; after D calls only closing calls stay enabled.
    A filtered-out test ("skip": counted by the registry, no call reaches the reporter) carries a name that contains
-   byte 122 'z': the harness installs the name filter "everything but z"; no other generated name contains it. *)
+   byte 122 'z': the harness installs the name filter "everything but z"; no other generated name contains it.
+   The run options of "start" travel in n: colour + 2 * verbosity.  "setpkg" / "fname" (setPackageName, createFileName) occur
+   wherever no group is open, "restart" is a further run served by the same reporter. *)
 EXTENDS JUnit, Json
-CONSTANTS D, NameAlpha, NameLen, FileAlpha, FileLen, MsgAlpha, MsgLen, PkgAlpha, PkgLen
+CONSTANTS D, NameAlpha, NameLen, FileAlpha, FileLen, MsgAlpha, MsgLen, PkgAlpha, PkgLen,
+          RunIgnModes    \* run-ignored modes generated (a subset of BOOLEAN; a bound like D)
 GNames == StrUpTo(NameAlpha, NameLen) \ {<<>>}
 GFiles == StrUpTo(FileAlpha, FileLen) \ {<<>>}
 GMsgs  == StrUpTo(MsgAlpha, MsgLen)
 GPkgs  == StrUpTo(PkgAlpha, PkgLen)
 GTexts == {<<116>>, <<60, 38, 93, 93, 62, 10>>}
+AllOpts == [color : BOOLEAN, verb : 0..2]
+PlainOpts == {NoOpt}
+OptCode(o) == (IF o.color THEN 1 ELSE 0) + 2 * o.verb
 VARIABLES h, fin
 gvars == <<vars, h, fin>>
 
@@ -19,7 +25,10 @@ More == Len(h) < D
 
 GInit == Init /\ h = <<>> /\ fin = FALSE
 GStep == /\ ~fin /\ UNCHANGED fin
-         /\ \/ \E ri \in BOOLEAN, p \in Pkgs : TestsStarted(ri, p) /\ Step("start", p, E0, E0, 0, IF ri THEN "1" ELSE "0")
+         /\ \/ \E ri \in RunIgnModes, p \in Pkgs, o \in Opts : TestsStarted(ri, p, o) /\ Step("start", p, E0, E0, OptCode(o), IF ri THEN "1" ELSE "0")
+            \/ \E ri \in RunIgnModes : More /\ cnt.r < MaxRuns /\ NextRun(ri) /\ Step("restart", E0, E0, E0, 0, IF ri THEN "1" ELSE "0")
+            \/ \E p \in Pkgs : More /\ cnt.s < MaxSets /\ SetPackage(p) /\ Step("setpkg", p, E0, E0, 0, "")
+            \/ \E g \in Names : More /\ cnt.s < MaxSets /\ AskFileName(g) /\ Step("fname", g, E0, E0, 0, "")
             \/ \E g \in Names : More /\ cnt.g < MaxGroups /\ GroupStarted(g) /\ Step("group", g, E0, E0, 0, "")
             \/ \E n \in Names, f \in Files, l \in LineNos, k \in {"n", "i"} :
                   More /\ cnt.t < MaxTests /\ TestStarted(n, f, l, k) /\ Step("test", n, f, E0, l, k)
